@@ -1701,6 +1701,15 @@ func runC08(r *harness.Run) {
 	{
 		pr := &progRunner{r: r, prop: "C08", opts: lua.Options{}, sigPrefix: "compile/"}
 		pr.runGens(map[string]Gen{"F-goto-invalid": genGotoInvalid(thorough)}, []string{"F-goto-invalid"})
+		// what a chunk means does not depend on where its bytes are cut into read blocks: programs with
+		// line ends of every kind inside long strings, long comments and after a backslash, and
+		// control-flow programs, each shifted so that every carriage return in turn is the last byte of
+		// the reader's first (and second) 4096-byte block; the string values and traces are compared
+		// with the reference interpreter
+		pb := &progRunner{r: r, prop: "C08", opts: lua.Options{}, sigPrefix: "blocks/"}
+		pb.runGens(map[string]Gen{"F-crlf": genCRLFProgs(), "B-crlf/F-crlf": bufBoundary(genCRLFProgs(), "\r\n"), "B-lfcr/F-crlf": bufBoundary(genCRLFProgs(), "\n\r"), "B-cr/F-crlf": bufBoundary(genCRLFProgs(), "\r"),
+			"B-crlf/F-genfor": bufBoundary(genGenFor(false), "\r\n")},
+			[]string{"F-crlf", "B-crlf/F-crlf", "B-lfcr/F-crlf", "B-cr/F-crlf", "B-crlf/F-genfor"})
 	}
 }
 
